@@ -52,6 +52,8 @@ func main() {
 		seed := core.Seed()
 		fmt.Printf("VERIF_SEED=%d property=%s tier=%s\n", seed, id, tier)
 		switch id {
+		case "C14":
+			code = schedsim.CheckC14(schedsim.C14Options{Tier: tier, Seed: seed})
 		case "C15":
 			code = schedsim.CheckC15(schedsim.C15Options{Tier: tier, Seed: seed})
 		default:
